@@ -58,6 +58,19 @@ pub proof fn lemma_hist_lines_only_text(h1: Seq<Ev>, h2: Seq<Ev>)
     }
 }
 
+pub broadcast proof fn lemma_only_text_refl(h: Seq<Ev>)
+    ensures #[trigger] only_text_after(h, h),
+{
+    assert(h.subrange(0, h.len() as int) =~= h);
+}
+pub broadcast proof fn lemma_only_text_push(h1: Seq<Ev>, h: Seq<Ev>, s: Seq<char>, ln: bool)
+    requires #[trigger] only_text_after(h1, h),
+    ensures only_text_after(h1, #[trigger] h.push(Ev::Text(s, ln))),
+{
+    assert(h.push(Ev::Text(s, ln)).subrange(0, h1.len() as int) =~= h.subrange(0, h1.len() as int));
+}
+pub broadcast group otx_group { lemma_only_text_refl, lemma_only_text_push }
+
 /// `Painter::emit` (rule E4, option flush=on): the whole output buffer goes to the writer as one Flush event.
 #[verifier::external_body]
 pub fn verif_flush(w: &mut Writer, buf: &String) -> (r: std::io::Result<()>)
